@@ -224,4 +224,21 @@ mod __verif_e2e {
             assert_eq!(got, want, "GROUP BY k (morsel={morsel}): the NULL-key group with only NULL inputs must be returned");
         }
     }
+
+    /// C16-content-length-ignored: a peer declares 5 body bytes, sends 2 and closes.
+    #[test]
+    fn e2e_c16_short_body_is_an_error() {
+        use std::io::{Read, Write};
+        let listener = std::net::TcpListener::bind("127.0.0.1:0").unwrap();
+        let addr = listener.local_addr().unwrap().to_string();
+        std::thread::spawn(move || {
+            let (mut s, _) = listener.accept().unwrap();
+            let mut buf = [0u8; 2048];
+            let _ = s.read(&mut buf);
+            s.write_all(b"HTTP/1.1 200 OK\r\nContent-Length: 5\r\n\r\nhe").unwrap();
+        });
+        let rt = tokio::runtime::Builder::new_current_thread().enable_all().build().unwrap();
+        let r = rt.block_on(crate::distributed::http_client::get(&addr, "/x", std::time::Duration::from_secs(5)));
+        assert!(r.is_err(), "a response cut short of its Content-Length was returned as success: {:?}", r.map(|x| (x.status, x.body)));
+    }
 }
